@@ -251,9 +251,29 @@ def _scale_unit(nd, L, mode, ksteps, sel=True, frozen=None, cval=None, symh=True
         fn = getattr(Integration, DRIVERS[nd - 1])
         if not env.symbolic:
             K.concrete_modules()
-            oa = np.asarray(fn(phi.copy(), xx, T, **kwargs(False)))
-            ob = np.asarray(fn(phi.copy(), xx, c * T, **kwargs(True)))
+            real_rule = Integration._compute_dt
+            recs = {'A': [], 'B': []}
+            state = {'run': 'A'}
+
+            def spy(dx, nu, ms_, gamma, h):
+                recs[state['run']].append((nu, list(ms_), gamma, h))
+                return real_rule(dx, nu, ms_, gamma, h)
+            Integration._compute_dt = spy
+            try:
+                oa = np.asarray(fn(phi.copy(), xx, T, **kwargs(False)))
+                state['run'] = 'B'
+                ob = np.asarray(fn(phi.copy(), xx, c * T, **kwargs(True)))
+            finally:
+                Integration._compute_dt = real_rule
             env.same('density', ob, oa)
+            # the arguments handed to the time-step rule must be the rescaled ones (this is what makes the step scale)
+            env.holds('time-step rule consulted equally often', len(recs['A']) == len(recs['B']))
+            for k, (ra, rb) in enumerate(zip(recs['A'], recs['B'])):
+                env.eq('dt-rule call %d: nu scaled' % k, rb[0], c * ra[0])
+                for q, (ma, mb) in enumerate(zip(ra[1], rb[1])):
+                    env.eq('dt-rule call %d: m%d scaled' % (k, q), mb * c, ma)
+                env.eq('dt-rule call %d: gamma scaled' % k, rb[2] * c, ra[2])
+                env.eq('dt-rule call %d: h' % k, rb[3], ra[3])
             return
         si = K.sym_integration()
         orig = si.orig_compute_dt
@@ -350,6 +370,14 @@ def _dt_lemma_unit(nm):
         a = Integration._compute_dt(dx, nu, list(ms) if nm else [0], gamma, h)
         b = Integration._compute_dt(dx, c * nu, [m / c for m in ms] if nm else [0], gamma / c, h)
         env.eq('dt scales with c', b, c * a)
+        # the documented refinement knob: dt is proportional to the module-level timescale_factor at call time
+        saved_tf = Integration.timescale_factor
+        try:
+            Integration.timescale_factor = saved_tf / 8
+            a8 = Integration._compute_dt(dx, nu, list(ms) if nm else [0], gamma, h)
+        finally:
+            Integration.timescale_factor = saved_tf
+        env.eq('dt proportional to Integration.timescale_factor', a8 * 8, a)
         env.holds('dt positive', a > 0)
         # old-style rule switch must not be on (it is not scale covariant by design: documented global)
         env.holds('default rule in force', Integration.use_old_timestep is False)
